@@ -93,6 +93,32 @@ def one(sh, doc, sseed, slot_no, kind, fclass, text, props):
     else:
         sh.count('obs.rejected_with_syntax_error')
         sh.count(f'obs.raised.{type(err).__name__}')
+        leak_probe(sh, bad, fclass, kind)
+
+
+PROBE = 'Table probe_only {\n  probe_col int [pk]\n}\nEnum probe_enum {\n  probe_item\n}\n'
+_probe = {'n': 0, 'base': None}
+
+
+def leak_probe(sh, rejected_text, fclass, kind):
+    """after a rejected document, a fixed small document must still give exactly its own content
+    (no prefix / fragment of the rejected one may leak into a later result)"""
+    from pv import walk
+    _probe['n'] += 1
+    if _probe['n'] % 7 and _probe['base'] is not None:
+        return
+    db, err = parse(PROBE)
+    got = ('EXC', type(err).__name__, str(err)[:80]) if err is not None else walk.content(db)
+    if _probe['base'] is None:
+        _probe['base'] = got
+        return
+    sh.count('obs.leak_probes')
+    if got != _probe['base']:
+        names = [t['name'] for t in got['tables']] if isinstance(got, dict) else got
+        sh.violation('leak', 'leak:rejected-document-leaks-into-next-result',
+                     f'after a rejected document ({fclass} at {position_class(kind)}) the probe document gives {str(names)[:200]}',
+                     {'kind': 'leak', 'rejected': rejected_text, 'probe': PROBE}, {'fault': fclass})
+        _probe['base'] = got
 
 
 def unterminated_string(sh, last_lit, text, props):
@@ -182,12 +208,22 @@ def conclusive(agg, tier):
             out.append(f'position class {p} never used')
     if c.get('obs.host_rejected', 0) > c.get('obs.hosts', 0):
         out.append('most hosts were rejected by the control parse')
+    if not c.get('obs.leak_probes'):
+        out.append('leak probe never evaluated')
     return out
 
 
 def replay(v):
     sh = Shard(ID)
     case = v['case']
+    if case.get('kind') == 'leak':
+        base, e0 = parse(case['probe'])
+        parse(case['rejected'])
+        after, e1 = parse(case['probe'])
+        from pv import walk
+        if e0 is None and (e1 is not None or walk.content(after) != walk.content(base)):
+            sh.violation('leak', v['klass'], 'probe document still differs after the rejected document', case)
+        return sh.violations
     db, err = parse(case['text'], allow_properties=case.get('allow_properties', False))
     if err is None:
         sh.violation('accept', v['klass'], 'document is (still) accepted', case, v.get('features'))
